@@ -395,6 +395,7 @@ func (p *Program) verifyFunction(fc *FuncContract, fn *ssa.Function) *VC {
 				}
 				return baseLookup(name, isCur)
 			}
+			fr.callCount[fmt.Sprintf("matched-at:%d", j)]++
 			f, err := x.trBool(aa.Clause.Expr, env)
 			if err != nil {
 				x.contractError(fr, aa.Clause, err)
@@ -405,6 +406,18 @@ func (p *Program) verifyFunction(fc *FuncContract, fn *ssa.Function) *VC {
 		}
 		rets = append(rets, retRec{n, rst, results})
 	})
+	// vacuity of site clauses: an "at ..." or "after call ..." clause that matched no instruction of the function says
+	// nothing any more (the code it spoke about is gone): reported like a clause that no longer resolves
+	for ai, aa := range fc.Asserts {
+		if fr.callCount[fmt.Sprintf("matched-at:%d", ai)] == 0 {
+			x.contractError(fr, aa.Clause, fmt.Errorf("the clause matches no %s site of the function any more (at %s %s#%d)", aa.Where, aa.Where, aa.Target, aa.Nth))
+		}
+	}
+	for asi, as := range fc.Afters {
+		if fr.callCount[fmt.Sprintf("matched-after:%d", asi)] == 0 {
+			x.prog.contractErrors = append(x.prog.contractErrors, contractErr{Fn: fc.Key(), Clause: "after call " + as.Target, Err: "the clause matches no call site of the function any more", Props: fc.Props, Line: fc.Line, File: fc.File})
+		}
+	}
 	if len(rets) == 0 {
 		vc.note("%s: no return is reachable", fc.Key())
 		return vc
@@ -638,6 +651,7 @@ func (x *Exec) atAsserts(fr *Frame, n *Node, st *State, where string, targets []
 				continue
 			}
 		}
+		fr.callCount[fmt.Sprintf("matched-at:%d", ai)]++
 		env := x.bodyEnv(fr, n, st, instr.Block())
 		if len(callArgs) > 0 {
 			base := env.lookup
@@ -756,7 +770,7 @@ func (x *Exec) afterCall(c *callCtx, targets []string) {
 	}
 	var ups []upd
 	siteOf := map[string]int{}
-	for _, as := range fr.contract.Afters {
+	for asi, as := range fr.contract.Afters {
 		match := false
 		for _, t := range targets {
 			if as.Target == t || strings.HasSuffix(t, "."+as.Target) {
@@ -772,6 +786,7 @@ func (x *Exec) afterCall(c *callCtx, targets []string) {
 		if as.Nth != 0 && as.Nth != siteOf[as.Target] {
 			continue
 		}
+		fr.callCount[fmt.Sprintf("matched-after:%d", asi)]++
 		env := x.bodyEnv(fr, c.n, c.st, c.instr.Block())
 		base := env.lookup
 		env.lookup = func(name string, isCur bool) (Term, bool, error) {
